@@ -62,6 +62,9 @@ func unitC04orch(e common.Env, p *common.Part) {
 	mk("sign N=3 ids 44,300,7 all senders p2p", []uint16{44, 300, 7}, true, []uint16{44, 300, 7}, []uint8{1}, true, 0, e.Pick(300, 4000))
 	mk("dkg N=5 ids 1,2,257,4,65535 senders 257,65535 2 rounds", []uint16{1, 2, 257, 4, 65535}, false, []uint16{257, 65535}, []uint8{1, 2}, false, 0, e.Pick(200, 4000))
 	mk("dkg N=3 all senders 2 rounds p2p", []uint16{1, 2, 3}, false, []uint16{1, 2, 3}, []uint8{1, 2}, true, 0, e.Pick(400, 60000))
+	// node identifier 0 (a legal identifier; the zero value of every table keyed or valued by identifiers), with point-to-point traffic
+	mk("dkg N=3 ids 0,5,9 all senders p2p", []uint16{0, 5, 9}, false, []uint16{0, 5, 9}, []uint8{1}, true, e.Pick(1500, 20000), e.Pick(200, 2000))
+	mk("sign N=4 ids 0,1,2,3 all senders 2 rounds p2p", []uint16{0, 1, 2, 3}, true, []uint16{0, 1, 2, 3}, []uint8{1, 2}, true, 0, e.Pick(200, 4000))
 	mkSilent := func(name string, ids []uint16, sign bool, transmit []uint16, rounds []uint8, p2p bool, limit, samples int) {
 		mk(name, ids, sign, transmit, rounds, p2p, limit, samples)
 		cases[len(cases)-1].cfg.Silent = true
@@ -423,6 +426,16 @@ func byzOrchCatalogue(e common.Env) []ocase {
 			add(fmt.Sprintf("%s N=4 aliasing identifiers: sender %d equivocates, accomplice %d broadcasts the other version and reflects", kind, sdr, acc), ids, nil, sign,
 				map[uint16]*byzPlan{sdr: {RouteVersion: map[uint8][]uint16{1: {1}, 2: {3}}, CopyAs: map[uint8]copyAs{1: {acc, []uint16{3}}, 2: {acc, []uint16{1}}}}, acc: {ReflectAcks: true, Mute: true, ReflectOnlyVersion: map[uint16]uint8{1: 1, 3: 2}}},
 				nil, []uint16{sdr}, map[uint16]int{sdr: 2}, lim4, smp)
+		}
+	}
+	// two nodes of ONE party - the party with the largest (also: smallest, middle) identifier of the session - both take part and
+	// both transmit: a session must not run with a party represented twice (each replica's broadcast would be a broadcast "of
+	// that party"), whichever position the party has among the sorted identifiers
+	for _, dupParty := range []uint16{3, 1, 2} {
+		for _, sign := range []bool{false, true} {
+			kind := map[bool]string{false: "dkg", true: "sign"}[sign]
+			mp := map[uint16]uint16{1: 1, 2: 2, 3: 3, 4: dupParty}
+			add(fmt.Sprintf("%s N=4 party %d represented by two participating nodes", kind, dupParty), []uint16{1, 2, 3, 4}, mp, sign, nil, nil, []uint16{dupParty}, nil, lim4, smp)
 		}
 	}
 	// key generation with a threshold below n-1: every party takes part, so a broadcast still needs the vouchers of all the others
